@@ -491,6 +491,34 @@ func GenSched(r *sim.Rand, tier string) sim.Script {
 		s.Ops = append(s.Ops, Op{K: "lose", P: "norepair", S: []int{r.Intn(1000)}, N: int64(r.Intn(100))})
 	}
 	nt := 2 + r.Intn(3)
+	if !lossy && r.Chance(1, 8) {
+		// judged change counts: only plain writes and reads, at most five writes in all
+		s.CountJudge = true
+		left := 5
+		for t := 0; t < nt && t < 3; t++ {
+			var ops []Op
+			for i := 2 + r.Intn(3); i > 0; i-- {
+				p := pool[r.Intn(len(pool))]
+				switch k := r.Intn(6); {
+				case k <= 1 && left > 0:
+					n++
+					left--
+					ops = append(ops, Op{K: "ins", P: p, V: []byte(fmt.Sprintf("t%d", n))})
+				case k == 2 && left > 0:
+					left--
+					ops = append(ops, Op{K: "del", P: p})
+				case k == 3:
+					ops = append(ops, Op{K: "get", P: p})
+				default:
+					ops = append(ops, Op{K: "count"})
+				}
+			}
+			s.Tasks = append(s.Tasks, ops)
+		}
+		s.Strategy = []string{"rw", "rw", "pct", "rub"}[r.Intn(4)]
+		s.SchedSeed = r.U64()
+		return s
+	}
 	for t := 0; t < nt; t++ {
 		var ops []Op
 		for i := 2 + r.Intn(5); i > 0; i-- {
